@@ -12,6 +12,8 @@ ESRI = {1: (0, 1), 2: (1, 1), 4: (1, 0), 8: (1, -1), 16: (0, -1),
         32: (-1, -1), 64: (-1, 0), 128: (-1, 1)}       # code -> (drow, dcol)
 DIRS = [1, 2, 4, 8, 16, 32, 64, 128]
 INVALID_CODES = [3, 5, 255, -1, 9999]
+# invalid codes beyond 32 bits whose low 32 bits are a valid ESRI code (a kernel that narrows the code aliases them)
+INVALID_BIG = [2 ** 32 + 4, 2 ** 33 + 1, 2 ** 40 + 8, -2 ** 32 + 64, 2 ** 32 + 2]
 SQRT2 = math.sqrt(2.0)
 
 
@@ -19,8 +21,12 @@ def invalid_code(seed):
     return INVALID_CODES[seed % len(INVALID_CODES)]
 
 
+def invalid_big(seed):
+    return INVALID_BIG[seed % len(INVALID_BIG)]
+
+
 def alphabet(seed):
-    return [0] + DIRS + [invalid_code(seed)]
+    return [0] + DIRS + [invalid_code(seed), invalid_big(seed)]
 
 
 class FlowModel(object):
@@ -178,6 +184,7 @@ def cell_alphabets(nrows, ncols, mode, seed):
                 if og is not None:
                     a.append(og)
                 a.append(invalid_code(seed))
+                a.append(invalid_big(seed))
             out.append(a)
     return out
 
